@@ -8,6 +8,7 @@
 -/
 import AeicProofs.Lemmas.C19Drivers
 import AeicProofs.Lemmas.KernelBridge
+import AeicProofs.Lemmas.KernelBridge4
 
 namespace C19
 open Aeic Aeic.Bada
@@ -475,5 +476,53 @@ theorem src_cruise_factor_only_in_cruise (P : Params ℝ) (thr v : ℝ) :
 theorem src_piston_fuel_flow_kg_per_s (P : Params ℝ) (thr v : ℝ) :
     Kern.bada_piston_nominal_fuel_flow (KernelBridge.badaEnv P) thr v = P.cF1 / 60 := by
   rw [(KernelBridge.bada_fuel_flow P thr v).1.2.2]; simp [nominalFuelFlow]
+
+/-! ## Source tie for the integration itself: the two mass updates of `BADA/fuel_burn_base.py` regenerated as *vector*
+    kernels (`Aeic.Kern.mass_update_*`: slices, slice stores, `np.where` with `np.inf`, `cumulative_trapezoid`, read into list
+    functions), and the mass / trapezoid statements about them — for arrays of EVERY length. -/
+
+/-- `update_mass_vector` of the source: the profile starts at the prescribed mass `mass[0]`, and its decrease over each step is
+    the trapezoid of `1 / sgr` (with `sgr < 1` read as infinite range, i.e. no burn) over that step -/
+theorem src_mass_update_forward (mass sgr dx : List ℝ) :
+    headD (Kern.mass_update_fwd mass sgr dx) = headD mass ∧
+    diffs (Kern.mass_update_fwd mass sgr dx) = trapTerms (sgr.map burnPerMetre) dx := by
+  rw [KernelBridge4.mass_update_fwd]; exact update_forward _ _ _
+
+/-- `update_mass_vector_backward` of the source: ends at the prescribed mass `mass[-1]`; every step is the trapezoid of its own
+    segment (one more integrand value than segment lengths, as numpy requires) -/
+theorem src_mass_update_backward (mass sgr dx : List ℝ) (h : sgr.length = dx.length + 1) :
+    lastD (Kern.mass_update_bwd mass sgr dx) = lastD mass ∧
+    diffs (Kern.mass_update_bwd mass sgr dx) = trapTerms (sgr.map burnPerMetre) dx := by
+  rw [KernelBridge4.mass_update_bwd]; exact update_backward _ _ _ (by simpa using h)
+
+/-- the same with ONE scalar segment length (scipy / `np.broadcast_to` broadcast it) -/
+theorem src_mass_update_scalar_dx (mass sgr : List ℝ) (d : ℝ) (h : sgr.length = mass.length) (hm : mass ≠ []) :
+    (headD (Kern.mass_update_fwd_scalar_dx mass sgr d) = headD mass ∧
+     diffs (Kern.mass_update_fwd_scalar_dx mass sgr d) = trapTerms (sgr.map burnPerMetre) (List.replicate (sgr.length - 1) d)) ∧
+    (lastD (Kern.mass_update_bwd_scalar_dx mass sgr d) = lastD mass ∧
+     diffs (Kern.mass_update_bwd_scalar_dx mass sgr d) = trapTerms (sgr.map burnPerMetre) (List.replicate (mass.length - 1) d)) := by
+  rw [KernelBridge4.mass_update_fwd_scalar, KernelBridge4.mass_update_bwd_scalar]
+  refine ⟨update_forward _ _ _, update_backward _ _ _ ?_⟩
+  cases mass with
+  | nil => exact absurd rfl hm
+  | cons m ms => simp [List.length_replicate] at h ⊢; omega
+
+/-- mass never increases along the profile either update of the source produces, whatever the specific ground range (negative,
+    zero and sub-unit values included: they burn nothing) and for all non-negative segment lengths -/
+theorem src_mass_update_nonincreasing (mass sgr dx : List ℝ) (hd : ∀ d ∈ dx, 0 ≤ d) :
+    (Kern.mass_update_fwd mass sgr dx).Pairwise (fun a c => c ≤ a) ∧
+    (sgr.length = dx.length + 1 → (Kern.mass_update_bwd mass sgr dx).Pairwise (fun a c => c ≤ a)) := by
+  rw [KernelBridge4.mass_update_fwd, KernelBridge4.mass_update_bwd]
+  have hb : ∀ y ∈ sgr.map burnPerMetre, 0 ≤ y := by
+    intro y hy; obtain ⟨s, _, rfl⟩ := List.mem_map.mp hy; exact burn_nonneg s
+  obtain ⟨h1, h2⟩ := update_nonincreasing (headD mass) (sgr.map burnPerMetre) dx hb hd
+  obtain ⟨_, h3⟩ := update_nonincreasing (lastD mass) (sgr.map burnPerMetre) dx hb hd
+  exact ⟨h1, fun h => h3 (by simpa using h)⟩
+
+/-- non-vacuity / worked instance: 60 t, specific ground ranges 100, 200, 0.5 (sub-unit: no burn) m/kg, segments of 1 km and 3 km -/
+example : Kern.mass_update_fwd [60000, 0, 0] [100, 200, 1 / 2] [1000, 3000] = ([60000, 59992.5, 59985] : List ℝ) := by
+  simp only [Kern.mass_update_fwd, Vec.setTail, Vec.head0, Vec.cumtrapz, Vec.trapTerms, Vec.cumsumFrom, List.map_cons,
+    List.map_nil, List.headD_cons, lit_real]
+  norm_num
 
 end C19
